@@ -20,10 +20,10 @@ VARIANTS = {
                       "-fno-sanitize-recover=all"],
             ["-fsanitize=address,undefined,float-cast-overflow"], "cfg"),
     # C18: library instrumented by the tsan pass, linked against our own __tsan_* callbacks
-    "thr": ("clang", ["-O0", "-g", "-fsanitize=thread", "-mllvm",
+    "thr": ("clang", ["-O0", "-g", "-DNDEBUG", "-fsanitize=thread", "-mllvm",
                       "-tsan-instrument-read-before-write"], ["-pthread"], "cfg_thr"),
     # C18 cross-check: real TSan runtime, free running
-    "tsan": ("clang", ["-O1", "-g", "-fsanitize=thread"], ["-fsanitize=thread", "-pthread"], "cfg_thr"),
+    "tsan": ("clang", ["-O1", "-g", "-DNDEBUG", "-fsanitize=thread"], ["-fsanitize=thread", "-pthread"], "cfg_thr"),
 }
 
 
@@ -137,6 +137,7 @@ SAN_ENV = {
                     "detect_leaks=0:allocator_may_return_null=1:detect_stack_use_after_return=0:"
                     "symbolize=1:print_summary=1",
     "UBSAN_OPTIONS": "abort_on_error=1:print_stacktrace=1:symbolize=1",
+    "TSAN_OPTIONS": "halt_on_error=1:exitcode=66:report_signal_unsafe=0:second_deadlock_stack=0",
     "LC_ALL": "C",
 }
 
@@ -200,6 +201,7 @@ def run_shards(exe, args, nshards, tier, outdir, tag, deadline_s, env_extra=None
         penv = dict(env)
         penv["ASAN_OPTIONS"] = penv.get("ASAN_OPTIONS", "") + ":log_path=" + os.path.join(outdir, f"{tag}.{i}.asan")
         penv["UBSAN_OPTIONS"] = penv.get("UBSAN_OPTIONS", "") + ":log_path=" + os.path.join(outdir, f"{tag}.{i}.ubsan")
+        penv["TSAN_OPTIONS"] = penv.get("TSAN_OPTIONS", "") + ":log_path=" + os.path.join(outdir, f"{tag}.{i}.tsan")
         procs.append((subprocess.Popen(cmd, stdout=ef, stderr=ef, env=penv, cwd=VERIF), out, err, ef))
     merged = ShardResult()
     t_end = time.time() + (timeout_s or (deadline_s + 120))
